@@ -34,8 +34,17 @@ type Contract struct {
 	File       string
 	Line       int
 	modset     *ModSet
+	Asserts    []*AssertAt
 	ParamNames []string          // extern contracts: parameter names from the header
 	Devirt     map[string]string // parameter name -> concrete type name (interface parameter known to hold *T)
+}
+
+// AssertAt is an assertion anchored at the n-th call (in generation order) of a named callee / builtin.
+type AssertAt struct {
+	Callee string
+	Ord    int
+	Expr   *Expr
+	Assume bool
 }
 
 type SpecParam struct {
@@ -67,7 +76,7 @@ type Lemma struct {
 	File      string
 }
 
-var clauseKW = regexp.MustCompile(`^(requires|ensures|modifies|loop|panics_iff|inline|trusted|use|induction|props|func|spec|pred|lemma|extern|devirt)\b`)
+var clauseKW = regexp.MustCompile(`^(requires|ensures|modifies|loop|panics_iff|inline|trusted|use|induction|props|func|spec|pred|lemma|extern|devirt|at)\b`)
 
 // parseContracts reads every zz_verif_contracts*.go file of the loaded packages.
 func (e *Engine) parseContracts(pkgs []*packages.Package) error {
@@ -257,6 +266,27 @@ func (e *Engine) parseContractLines(pkg *types.Package, file string, lines []str
 			default:
 				return fmt.Errorf("%s:%d: unknown loop clause %s", file, cl.line, what)
 			}
+		case "at":
+			// at <callee> <n>: assert <expr>
+			if cur == nil {
+				return fmt.Errorf("%s:%d: at outside func", file, cl.line)
+			}
+			colon := strings.Index(rest, ":")
+			if colon < 0 {
+				return fmt.Errorf("%s:%d: at <callee> <n>: assert expr", file, cl.line)
+			}
+			hd := strings.Fields(rest[:colon])
+			body := strings.TrimSpace(rest[colon+1:])
+			if len(hd) != 2 || !(strings.HasPrefix(body, "assert ") || strings.HasPrefix(body, "assume ")) {
+				return fmt.Errorf("%s:%d: at <callee> <n>: assert expr", file, cl.line)
+			}
+			var n int
+			fmt.Sscanf(hd[1], "%d", &n)
+			x, err := mk(strings.TrimSpace(body[7:]), cl.line)
+			if err != nil {
+				return err
+			}
+			cur.Asserts = append(cur.Asserts, &AssertAt{Callee: hd[0], Ord: n, Expr: x, Assume: strings.HasPrefix(body, "assume ")})
 		case "inline":
 			if cur != nil {
 				cur.Inline = true
